@@ -36,17 +36,23 @@ type shardOut struct {
 	Extra       map[string]interface{} `json:"extra,omitempty"`
 }
 
+var stdout = os.Stdout
+
 func main() {
+	// the application prints debug lines with fmt.Printf (BuyStorage); keep them off our output
+	if dn, err := os.OpenFile(os.DevNull, os.O_WRONLY, 0); err == nil {
+		os.Stdout = dn
+	}
 	debug.SetGCPercent(200)
 	if len(os.Args) < 2 {
-		fmt.Println("usage: jkverif run|replay|list ...")
+		fmt.Fprintln(stdout, "usage: jkverif run|replay|list ...")
 		os.Exit(2)
 	}
 	chain.SetBech32()
 	switch os.Args[1] {
 	case "list":
 		for _, id := range props.IDs() {
-			fmt.Println(id)
+			fmt.Fprintln(stdout, id)
 		}
 	case "run":
 		fs := flag.NewFlagSet("run", flag.ExitOnError)
@@ -60,7 +66,7 @@ func main() {
 		fs.Parse(os.Args[2:])
 		p := props.Registry[*prop]
 		if p == nil {
-			fmt.Println("unknown property", *prop)
+			fmt.Fprintln(stdout, "unknown property", *prop)
 			os.Exit(2)
 		}
 		t0 := time.Now()
@@ -110,9 +116,9 @@ func main() {
 		so.WallS = time.Since(t0).Seconds()
 		bz, _ := json.Marshal(so)
 		if *out == "" {
-			fmt.Println(string(bz))
+			fmt.Fprintln(stdout, string(bz))
 		} else if err := os.WriteFile(*out, bz, 0o644); err != nil {
-			fmt.Println(err)
+			fmt.Fprintln(stdout, err)
 			os.Exit(2)
 		}
 	case "replay":
@@ -124,21 +130,21 @@ func main() {
 		fs.Parse(os.Args[2:])
 		p := props.Registry[*prop]
 		if p == nil {
-			fmt.Println("unknown property", *prop)
+			fmt.Fprintln(stdout, "unknown property", *prop)
 			os.Exit(2)
 		}
 		func() {
 			defer func() {
 				if r := recover(); r != nil {
-					fmt.Printf("harness panic: %v\n%s\n", r, debug.Stack())
+					fmt.Fprintf(stdout, "harness panic: %v\n%s\n", r, debug.Stack())
 					os.Exit(3)
 				}
 			}()
 			r := props.RunCase(p, *seed, *idx, *tier, true)
 			bz, _ := json.MarshalIndent(map[string]interface{}{"findings": len(r.Findings), "nontrivial": r.NonTrivial, "aborted": r.Aborted, "sample": r.Sample, "evaluations": r.Evaluations, "counters": r.Counters}, "", " ")
-			fmt.Println(string(bz))
+			fmt.Fprintln(stdout, string(bz))
 			for _, f := range r.Findings {
-				fmt.Printf("FINDING property=%s sig=%s %s\n", f.Prop, f.Sig, f.Detail)
+				fmt.Fprintf(stdout, "FINDING property=%s sig=%s %s\n", f.Prop, f.Sig, f.Detail)
 			}
 			if len(r.Findings) > 0 {
 				os.Exit(1)
@@ -148,7 +154,7 @@ func main() {
 			}
 		}()
 	default:
-		fmt.Println("unknown command")
+		fmt.Fprintln(stdout, "unknown command")
 		os.Exit(2)
 	}
 }
